@@ -255,6 +255,9 @@ structure ExtInParts where
   bodyForm : BodyForm
   body : Cell          -- an ordinary cell: its bits and references are the body
 
+/-- the body as the decoder will report it (`Body.Value`): an ordinary cell with the body's bits and references -/
+def ExtInParts.bodyValue (p : ExtInParts) : Cell := Cell.ordinary p.body.bits p.body.refs
+
 def encodeInit : InitForm Cell → List Bool × List Cell
   | .absent => ([false], [])
   | .inline si => let (b, r) := encodeStateInit si; (true :: false :: b, r)
